@@ -53,8 +53,14 @@ static const char *const arg_argv[] = {"dround", "2012-03-01", "Mon"};
 #define NTARGV	((int)(sizeof(tool_argv) / sizeof(*tool_argv)))
 #define NAARGV	((int)(sizeof(arg_argv) / sizeof(*arg_argv)))
 
-static const char *const tok[6] = {"2012-03-01", "xx", " ", "\n", "\r\n", "12:00:00"};
-static const char *const tokname[6] = {"D", "x", "_", "n", "c", "T"};
+/* tokens 0..5: the text alphabet; 6..8: single bytes NUL, 0x01, 0xff (second alphabet
+ * {date, xx, NUL, 0x01, 0xff, blank, \n}: bytes that C string handling trips over,
+ * before, directly after and between dates and literals) */
+#define NTOK	9
+static const char *const tok[NTOK] = {"2012-03-01", "xx", " ", "\n", "\r\n", "12:00:00", "\0", "\x01", "\xff"};
+static const size_t toklen[NTOK] = {10, 2, 1, 1, 2, 8, 1, 1, 1};
+static const char *const tokname[NTOK] = {"D", "x", "_", "n", "c", "T", "z", "a", "f"};
+static const int alphaB[7] = {0, 1, 6, 7, 8, 2, 3};
 #define MAXTOK	6
 #define MAXS	96
 
@@ -151,11 +157,15 @@ do_stream(const int *t, int nt, int maxcuts, int allcomp_len, int replay, const 
 	char in[MAXS], name[16], ein[4 * MAXS], cas[256], key[200];
 	size_t len = 0;
 	struct fs_result ref;
-	int touching = 0;
+	int touching = 0, bytes = 0;
+	const char *ksuf;
 
 	for (int i = 0; i < nt; i++) {
-		size_t l = strlen(tok[t[i]]);
+		size_t l = toklen[t[i]];
 		memcpy(in + len, tok[t[i]], l);
+		if (t[i] >= 6) {
+			bytes = 1;
+		}
 		len += l;
 		name[i] = tokname[t[i]][0];
 		if (i > 0 && (t[i] == 0 || t[i] == 5) && (t[i - 1] == 0 || t[i - 1] == 5)) {
@@ -166,6 +176,8 @@ do_stream(const int *t, int nt, int maxcuts, int allcomp_len, int replay, const 
 	in[len] = '\0';
 	esc(ein, sizeof(ein), in, len);
 	++*c_streams;
+	/* streams of the byte alphabet have their own classes */
+	ksuf = bytes ? " [stream with NUL/0x01/0xff bytes]" : "";
 
 	/* the single-read run */
 	run_tool(in, len, NULL, 0, &ref);
@@ -173,7 +185,7 @@ do_stream(const int *t, int nt, int maxcuts, int allcomp_len, int replay, const 
 	ex_outcome(ex_hash_mix(ex_hash(ref.out, ref.outlen), ex_hash(in, len)));
 	snprintf(cas, sizeof(cas), "%s", nt ? name : "-");
 	if (!ref.exited || ref.status != 0) {
-		snprintf(key, sizeof(key), "tool=%s single read: %s", TOOLNAME, ref.signaled ? "killed" : "exit status");
+		snprintf(key, sizeof(key), "tool=%s single read: %s%s", TOOLNAME, ref.signaled ? "killed" : "exit status", ksuf);
 		ex_viol(key, (double)len, cas, cmdline, "stream \"%s\" in one read: %s -S %s", ein, TOOLNAME, fs_ending(&ref));
 		if (replay) {
 			printf("  single read: %s\n", fs_ending(&ref));
@@ -190,19 +202,19 @@ do_stream(const int *t, int nt, int maxcuts, int allcomp_len, int replay, const 
 			lno++;
 			if (ip >= iend) {
 				esc(eo, sizeof(eo), op, (size_t)(oend - op) < MAXS ? (size_t)(oend - op) : MAXS);
-				snprintf(key, sizeof(key), "tool=%s transparency: extra output", TOOLNAME);
+				snprintf(key, sizeof(key), "tool=%s transparency: extra output%s", TOOLNAME, ksuf);
 				ex_viol(key, (double)len, cas, cmdline, "stream \"%s\": output goes on after the last input line: \"%s\"", ein, eo);
 				break;
 			}
 			il = ie ? (size_t)(ie - ip) : (size_t)(iend - ip);
 			if (op >= oend) {
 				esc(el, sizeof(el), ip, il);
-				snprintf(key, sizeof(key), "tool=%s transparency: lines lost%s", TOOLNAME, ie ? "" : " (unterminated last line)");
+				snprintf(key, sizeof(key), "tool=%s transparency: lines lost%s%s", TOOLNAME, ie ? "" : " (unterminated last line)", ksuf);
 				ex_viol(key, (double)len, cas, cmdline, "stream \"%s\": input line %d \"%s\" and what follows has no output", ein, lno, el);
 				break;
 			}
 			if (oe == NULL) {
-				snprintf(key, sizeof(key), "tool=%s transparency: output not newline terminated", TOOLNAME);
+				snprintf(key, sizeof(key), "tool=%s transparency: output not newline terminated%s", TOOLNAME, ksuf);
 				ex_viol(key, (double)len, cas, cmdline, "stream \"%s\": the output does not end in a newline", ein);
 				break;
 			}
@@ -213,17 +225,14 @@ do_stream(const int *t, int nt, int maxcuts, int allcomp_len, int replay, const 
 				if (il2 && ip[il2 - 1] == '\r' && !(ol2 && op[ol2 - 1] == '\r')) {
 					il2--;
 				}
-				skel(sa, ip, il2);
+				size_t ka = skel(sa, ip, il2), kb = (size_t)-1;
 				if (ol2 < 2 * MAXS) {
-					skel(sb, op, ol2);
-				} else {
-					sb[0] = '\1';
-					sb[1] = '\0';
+					kb = skel(sb, op, ol2);
 				}
-				if (strcmp(sa, sb)) {
+				if (ka != kb || memcmp(sa, sb, ka)) {
 					esc(el, sizeof(el), ip, il);
 					esc(eo, sizeof(eo), op, ol < 2 * MAXS ? ol : 2 * MAXS);
-					snprintf(key, sizeof(key), "tool=%s transparency: text outside the values changed", TOOLNAME);
+					snprintf(key, sizeof(key), "tool=%s transparency: text outside the values changed%s", TOOLNAME, ksuf);
 					ex_viol(key, (double)len, cas, cmdline, "stream \"%s\": line %d \"%s\" came out as \"%s\"", ein, lno, el, eo);
 				}
 				/* values, unless two of them touch in this line */
@@ -236,7 +245,7 @@ do_stream(const int *t, int nt, int maxcuts, int allcomp_len, int replay, const 
 					size_t off = 0;
 					int prev = -1;
 					for (int i = 0; i < nt; i++) {
-						size_t l = strlen(tok[t[i]]);
+						size_t l = toklen[t[i]];
 						if ((size_t)(ip - in) <= off && off < (size_t)(ip - in) + il) {
 							if ((t[i] == 0 || t[i] == 5) && (prev == 0 || prev == 5)) {
 								ltouch = 1;
@@ -261,10 +270,19 @@ do_stream(const int *t, int nt, int maxcuts, int allcomp_len, int replay, const 
 					for (const char *q = va; *q; q += 11) {
 						wk += (size_t)snprintf(want + wk, sizeof(want) - wk, "%s;", date_result);
 					}
+					if (bytes && strlen(want) == strlen(vb)) {
+						/* reading: whether a date next to or behind a NUL/control byte is recognised is
+						 * not stated; it must come back as the result or unchanged */
+						for (size_t q = 0; want[q]; q += 11) {
+							if (!memcmp(vb + q, "2012-03-01;", 11)) {
+								memcpy(want + q, "2012-03-01;", 11);
+							}
+						}
+					}
 					if (strcmp(want, vb)) {
 						esc(el, sizeof(el), ip, il);
 						esc(eo, sizeof(eo), op, ol < 2 * MAXS ? ol : 2 * MAXS);
-						snprintf(key, sizeof(key), "tool=%s transparency: dates", TOOLNAME);
+						snprintf(key, sizeof(key), "tool=%s transparency: dates%s", TOOLNAME, ksuf);
 						ex_viol(key, (double)len, cas, cmdline, "stream \"%s\": line %d \"%s\" came out as \"%s\": dates %s, expected %s (argument mode gives %s)",
 							ein, lno, el, eo, vb, want, date_result);
 					}
@@ -273,7 +291,7 @@ do_stream(const int *t, int nt, int maxcuts, int allcomp_len, int replay, const 
 					if (strcmp(va, vb)) {
 						esc(el, sizeof(el), ip, il);
 						esc(eo, sizeof(eo), op, ol < 2 * MAXS ? ol : 2 * MAXS);
-						snprintf(key, sizeof(key), "tool=%s transparency: times", TOOLNAME);
+						snprintf(key, sizeof(key), "tool=%s transparency: times%s", TOOLNAME, ksuf);
 						ex_viol(key, (double)len, cas, cmdline, "stream \"%s\": line %d \"%s\" came out as \"%s\": times %s, expected %s", ein, lno, el, eo, vb, va);
 					}
 				}
@@ -382,7 +400,7 @@ do_stream(const int *t, int nt, int maxcuts, int allcomp_len, int replay, const 
 				}
 				esc(eo, sizeof(eo), r.out, r.outlen < 2 * MAXS ? r.outlen : 2 * MAXS);
 				esc(er, sizeof(er), ref.out, ref.outlen < 2 * MAXS ? ref.outlen : 2 * MAXS);
-				snprintf(key, sizeof(key), "tool=%s composition-dependent output (cuts=%d)", TOOLNAME, ncut);
+				snprintf(key, sizeof(key), "tool=%s composition-dependent output (cuts=%d)%s", TOOLNAME, ncut, ksuf);
 				ex_viol(key, (double)len, cas, cmdline, "stream \"%s\" delivered in reads of [%s] bytes: output \"%s\" (%s), in one read: \"%s\" (%s)",
 					ein, rd, eo, fs_ending(&r), er, fs_ending(&ref));
 			}
@@ -436,7 +454,7 @@ main(int argc, char *argv[])
 		int t[MAXTOK], nt = 0, ch[MAXS], nch = 0;
 		const char *p = ex.cas;
 		for (; *p && *p != ' ' && nt < MAXTOK; p++) {
-			for (int i = 0; i < 6; i++) {
+			for (int i = 0; i < NTOK; i++) {
 				if (*p == tokname[i][0]) {
 					t[nt++] = i;
 				}
@@ -464,7 +482,7 @@ main(int argc, char *argv[])
 		"run is transparent line by line: same number of lines in order, text outside [0-9:T-] unchanged (a blank between two digits belongs to the value), "
 		"dates come back as the tool's own argument-mode result (%s), times unchanged, missing final newline may be supplied, \\r\\n may come back as \\n; "
 		"lines where two values touch are skipped for the value comparison. states/transitions = compositions run and compared; traces = runs compared; "
-		"non-trivial = runs with at least one short read.", TOOLNAME, date_result);
+		"non-trivial = runs with at least one short read. A second alphabet adds the bytes NUL, 0x01, 0xff as tokens (own classes).", TOOLNAME, date_result);
 	{
 		/* per tier: tokens K and cuts per K */
 		int K = ex.thorough ? 6 : 4;
@@ -498,6 +516,48 @@ main(int argc, char *argv[])
 					}
 					nm[nt] = '\0';
 					ex_sample("%s -S on token stream %s (D date, x letters, _ blank, n \\n, c \\r\\n, T time): single read + compositions with <= %d cuts", TOOLNAME, nm, cuts[nt]);
+				}
+			}
+		}
+	}
+	/* second alphabet: streams of up to 4 tokens over {date, xx, NUL, 0x01, 0xff, blank, \n} with at
+	 * least one of the three byte tokens (the others are in the first enumeration) */
+	{
+		static const int cutsB_quick[5] = {0, 2, 2, 1, 1};
+		static const int cutsB_thoro[5] = {0, 3, 3, 2, 2};
+		const int *cuts = ex.thorough ? cutsB_thoro : cutsB_quick;
+		int allc = ex.thorough ? 9 : 7;
+		uint64_t id = 1000003;
+		ex_meta("bound-bytes", "byte alphabet {2012-03-01, xx, NUL, 0x01, 0xff, blank, \\n}: token sequences of length 1..4 with at least one byte token "
+			"(2460 streams); all compositions up to %d bytes, beyond that cuts <= %d/%d/%d/%d for 1/2/3/4 tokens; reading: a date next to such a byte "
+			"may come back as the tool's result or unchanged", allc + 1, cuts[1], cuts[2], cuts[3], cuts[4]);
+		for (int nt = 1; nt <= 4 && !ex_expired(); nt++) {
+			uint64_t n = 1;
+			for (int i = 0; i < nt; i++) {
+				n *= 7U;
+			}
+			for (uint64_t v = 0; v < n && !ex.expired; v++) {
+				int t[MAXTOK], has = 0;
+				uint64_t x = v;
+				for (int i = nt - 1; i >= 0; i--) {
+					t[i] = alphaB[x % 7U];
+					has |= t[i] >= 6;
+					x /= 7U;
+				}
+				if (!has) {
+					continue;
+				}
+				if (!ex_mine(id++)) {
+					continue;
+				}
+				do_stream(t, nt, cuts[nt], allc, 0, NULL, 0);
+				if (ex_want_sample()) {
+					char nm[16];
+					for (int i = 0; i < nt; i++) {
+						nm[i] = tokname[t[i]][0];
+					}
+					nm[nt] = '\0';
+					ex_sample("%s -S on token stream %s (z NUL, a 0x01, f 0xff): single read + compositions with <= %d cuts", TOOLNAME, nm, cuts[nt]);
 				}
 			}
 		}
